@@ -206,6 +206,20 @@ class Distribution(Generic[R], GenerativeFunction[R]):
                         old_choices = trace.get_choices()
                         old_value: R = old_choices.get_value()
 
+                        # Both branches of the cond must have the same types: a
+                        # constraint may arrive with a promoted dtype (e.g. from
+                        # a switch whose branches trace this address with
+                        # different dtypes).
+                        dtypes = jax.tree_util.tree_map(
+                            lambda n, o: jnp.result_type(n, o), new_value, old_value
+                        )
+                        new_value = jax.tree_util.tree_map(
+                            lambda n, d: jnp.asarray(n, dtype=d), new_value, dtypes
+                        )
+                        old_value = jax.tree_util.tree_map(
+                            lambda o, d: jnp.asarray(o, dtype=d), old_value, dtypes
+                        )
+
                         new_value, w, score = FlagOp.cond(
                             flag,
                             _true_branch,
